@@ -5,6 +5,7 @@ import (
 	"encoding/json"
 	"fmt"
 	"os"
+	"path/filepath"
 	"sort"
 	"sync"
 	"time"
@@ -29,15 +30,17 @@ type WPInput struct {
 	Remote      int         `json:"remote"` // length of the remote chain
 	Behaviours  []Behaviour `json:"behaviours"`
 	CrashPoints bool        `json:"crash_points"` // enumerate every prefix of the effect log (C05)
+	DiskDir     string      `json:"disk_dir"`     // when set, the replica's cache and keystore are kept in a real directory below it (no crash points then)
 	Restart     bool        `json:"restart"`      // clean close / reopen / load at the end (C17, C05)
 	Adversarial []string    `json:"adversarial"`  // behaviours of a mutant specification: non-realisable = drift
 }
 
 type wpRun struct {
-	in   *WPInput
-	res  *Result
-	bid  string
-	step int
+	localDir string // "": simulated cache and in-memory keystore; otherwise a real directory (leveldb cache, keystore on disk)
+	in       *WPInput
+	res      *Result
+	bid      string
+	step     int
 
 	w       *sim.World
 	local   *sim.Node
@@ -74,7 +77,7 @@ func (r *wpRun) setup(tag string) error {
 	r.w = sim.NewWorld()
 	lp, rp := r.w.AddPeer(tag+"-local"), r.w.AddPeer(tag+"-remote")
 	var err error
-	if r.local, err = lp.Start(""); err != nil {
+	if r.local, err = lp.Start(r.localDir); err != nil {
 		return err
 	}
 	if r.remote, err = rp.Start(""); err != nil {
@@ -539,7 +542,7 @@ func (r *wpRun) compare(st map[string]interface{}) {
 // recoverAndCheck opens the database on a peer holding some durable state,
 // loads it and checks the C05 oracle against the acknowledgements must[].
 func (r *wpRun) recoverAndCheck(p *sim.Peer, must []int, what string) {
-	n, err := p.Start("")
+	n, err := p.Start(r.localDir)
 	if err != nil {
 		r.res.Inconclusive = append(r.res.Inconclusive, what+": "+err.Error())
 		return
@@ -594,6 +597,17 @@ func (r *wpRun) run(b Behaviour, idx int) {
 	adversarial := false
 	for _, a := range r.in.Adversarial {
 		adversarial = adversarial || a == b.ID
+	}
+	r.localDir = ""
+	if r.in.DiskDir != "" {
+		d, err := os.MkdirTemp(r.in.DiskDir, "wp-")
+		if err != nil {
+			r.res.Inconclusive = append(r.res.Inconclusive, b.ID+": "+err.Error())
+			return
+		}
+		defer os.RemoveAll(d)
+		r.localDir = filepath.Join(d, "orbitdb")
+		r.res.Stats["on_disk"]++
 	}
 	if err := r.setup(fmt.Sprintf("b%d", idx)); err != nil {
 		r.res.Inconclusive = append(r.res.Inconclusive, b.ID+": setup: "+err.Error())
@@ -712,7 +726,7 @@ func (r *wpRun) run(b Behaviour, idx int) {
 	p := r.local.P
 	total := p.EffectCount()
 	// crash points: every prefix of the effect log
-	if r.in.CrashPoints {
+	if r.in.CrashPoints && r.localDir == "" {
 		for n := r.base; n <= total; n++ {
 			must := []int{}
 			for _, a := range acks {
@@ -730,7 +744,7 @@ func (r *wpRun) run(b Behaviour, idx int) {
 		_ = r.local.Close()
 		r.local = nil
 		r.recoverAndCheck(p, ackedIDs, "clean restart")
-		n, err := p.Start("")
+		n, err := p.Start(r.localDir)
 		if err == nil {
 			if n.DB.Identity().ID != idBefore {
 				r.violate("identity", "the peer's identity changed across the restart", idBefore, n.DB.Identity().ID)
